@@ -30,7 +30,7 @@ CHECKS = {
         category="model_checking",
         technique=TR,
         text="Invariants AcceptOnlyValid, BcastKeepsWaiting, FailOnlyOnBad, SetAddrNeverReads hold on the complete state space of three bounded configurations (2-3 calls, all datagram classes, strays, peer faults). "
-             "Behaviours of the same specification (controller answers of 1-2 datagrams from 8 classes, strays injected into the call's source port, all three paths) are replayed against the unmodified driver on loopback and every recorded scenario must be a behaviour of the specification: accepted / skipped / refused exactly as the model's Recv says; one hand-made behaviour per wrong length (19 lengths, 0..4096) and path.",
+             "Behaviours of the same specification (controller answers of 1-2 datagrams from 8 classes, strays injected into the call's source port, all three paths) are replayed against the unmodified driver on loopback and every recorded scenario must be a behaviour of the specification: accepted / skipped / refused exactly as the model's Recv says; one hand-made behaviour per datagram class x {ordinary, status} call x path and per wrong length (19 lengths, 0..4096, and the genuine TCP reply split in two segments) and path.",
         note="Trusted: TLC; the farm's concretisation of datagram classes; timing on a 50 ms tick with a re-run rule (a rejection counts only if reproduced in isolation at 150 ms tick). Operation coverage on real sockets is representative (GetCardByIndex, GetStatus incl. 0x19, SetAddress); per-operation decoding is C02's.",
         design="4/C03",
     ),
@@ -70,7 +70,7 @@ CHECKS = {
         category="model_checking",
         technique=TR + "; happens-before model of Broadcast() (spec/Discovery.tla, vector clocks) with NoRace invariant; Go race detector as observer of memory races on the same scripts + discovery + listener shutdown",
         text="NoCrossedReplyStrict, PortExclusive, TimelyAnswerAccepted hold over all interleavings of 3 calls to one controller on a shared fixed port (delays < T); XF_NoGuard, XF_GuardPerClient (the lock owned by a client instead of the process), XF_DeadlineBeforeLock and XF_DiscoveryUnsync each yield the modelled defect's counterexample. "
-             "Simulated behaviours with 3-4 concurrent calls (same controller, mixed paths, fixed and ephemeral port) are replayed on real sockets with request tags echoed in replies so that a crossed reply or a refused timely answer is a rejected trace (incl. calls that queue for the fixed port and then use TCP); a gate around the real driver (verif hook) forces the schedule Transport!Finish(a) .. [call b completes 1-4 times] .. Transport!Return(a) over all nine path pairs, same / other client, and each result must interpret its own reply (Trace_Api!CheckGate); the same scripts run under -race.",
+             "Simulated behaviours with 3-4 concurrent calls (same controller, mixed paths, fixed and ephemeral port) are replayed on real sockets with request tags echoed in replies so that a crossed reply or a refused timely answer is a rejected trace (incl. calls that queue for the fixed port and then use TCP); a gate around the real driver (verif hook) forces the schedule Transport!Finish(a) .. [call b completes 1-4 times] .. Transport!Return(a) over all nine path pairs, same / other client, and each result must interpret its own reply (Trace_Api!CheckGate); the same scripts run under -race, preceded by a cold-start burst (one goroutine per operation released at once on a fresh process).",
         note="Whether a memory race happened is observed by the Go race detector, not by the specification (which contributes the synchronisation design and arbitrates the trace). Timing as C03.",
         design="4/C08",
     ),
@@ -78,7 +78,7 @@ CHECKS = {
         category="model_checking",
         technique=TR + "; liveness (Termination) under weak fairness; process-level fd / goroutine counts as logged state",
         text="BoundedReturn, NoEarlyGiveUp, DeadlineFromAsk, Released are invariants of the model; Termination holds under weak fairness; XF_RearmPerRead / XF_NoCloseOnError / XF_DeadlineBeforeLock are refuted. "
-             "Replayed behaviours cover silence, late replies, refused and reset TCP, ICMP-refused UDP, accept-and-stall, and floods of irrelevant datagrams until the deadline (alone and with the genuine reply at T-1); time-outs must fall in tick T after being asked, timely replies must be accepted, and each child process must hold no more sockets or goroutines afterwards; discovery (Discovery.tla: WindowAbsolute, ReaderQuits under fairness, XF_DiscoveryRearm / XF_DiscoveryHandOff refuted) is exercised under a datagram-per-millisecond flood through the deadline with goroutine / socket accounting (Trace_Api!CheckQuiesce).",
+             "Replayed behaviours cover silence, late replies, refused and reset TCP, ICMP-refused UDP, accept-and-stall, a TCP peer that never answers the SYN (blackhole), a TCP handshake that completes only on the kernel's SYN retransmission and then stalls (model: Send = dial, Connect; one absolute deadline; XF_RearmAfterConnect refuted), and floods of irrelevant datagrams until the deadline (alone and with the genuine reply at T-1); time-outs must fall in tick T after being asked, timely replies must be accepted, and each child process must hold no more sockets or goroutines afterwards; discovery (Discovery.tla: WindowAbsolute, ReaderQuits under fairness, XF_DiscoveryRearm / XF_DiscoveryHandOff refuted) is exercised under a datagram-per-millisecond flood through the deadline with goroutine / socket accounting (Trace_Api!CheckQuiesce).",
         note="Trusted: /proc/self/fd and runtime.NumGoroutine; tick timing with half a tick of slack on time-outs; re-run rule.",
         design="4/C09",
     ),
